@@ -297,6 +297,15 @@ SLICES = [
         "drops": "everything of the self-play loop before the search call: move list, printing, timer thread; the `loop` header",
     },
     {
+        "name": "verif_get_moves_prologue",
+        "file": "chess/mod.rs",
+        "within": r"^\s*pub fn get_moves\(",
+        "header": "impl Game { pub(crate) fn verif_get_moves_prologue(&mut self, moves: &mut ArrayVec<Move, 256>, went_on: &mut bool)",
+        "regions": [{"start": r"^\s*moves\.clear\(\);", "end": ("until", r"^\s*let mut push = ")}],
+        "post": "*went_on = true; }",
+        "drops": "everything after the early exit",
+    },
+    {
         "name": "verif_gen_body",
         "file": "chess/mod.rs",
         "within": r"^\s*pub fn get_moves\(",
